@@ -1,2 +1,209 @@
-/- placeholder: the C19 driver is not built yet -/
-def main : IO Unit := IO.println "C19: driver not built yet"
+/- C19 line-protocol driver: prints `model <TAB> spec` for each case line.
+   ops (see checks/props/c19.py for the grammar):
+     ext   it= pat=[..] ext=[..] ctor=dyn|all            (extents only: extent, rank, fwd/rev products)
+     map   lay=left|right|stride|tleft|tright it=<i8..u64> pat=[..] ext=[..] ctor=dyn|all [str=[..] perm=[..]]
+     conv  it= sit= pat=[..] spat=[..] ext=[..]
+     stride_members it= pat=[..] ext=[..] str=[..]
+     span  n= se= op=first|last|subspan ct=0|1 off= cnt=
+-/
+import Tetl.Proto
+import Tetl.C19.Model
+import Tetl.C19.Spec
+namespace Tetl.C19.Driver
+open Tetl Tetl.Proto Tetl.C19
+
+def parseIt (s : String) : Option IdxT :=
+  match s with
+  | "i8" => some ⟨8, true⟩ | "u8" => some ⟨8, false⟩
+  | "i16" => some ⟨16, true⟩ | "u16" => some ⟨16, false⟩
+  | "i32" => some ⟨32, true⟩ | "u32" => some ⟨32, false⟩
+  | "i64" => some ⟨64, true⟩ | "u64" => some ⟨64, false⟩
+  | _ => none
+
+def parsePat (l : List Int) : Pat := l.map (fun x => if x < 0 then none else some x.toNat)
+
+def fmtE (r : Except Err String) : String :=
+  match r with
+  | .ok s => s
+  | .error e => e.fmt
+
+/-- the values handed to the extents constructor: all of them, or those of the dynamic positions -/
+def ctorVals (pat : Pat) (vals : List Int) (all : Bool) : List Int :=
+  if all then vals else ((pat.zip vals).filter (fun pv => isDyn pv.1)).map (·.2)
+
+def natsOf (l : List Int) : List Nat := l.map Int.toNat
+def intsOf (l : List Nat) : List Int := l.map Int.ofNat
+
+def okIf (b : Bool) : String := if b then "ok" else "bad"
+
+def fmtFields (ext : List Int) (r d : Nat) (req : String) (str offs : List Int) (size : String) (md mda : String) : String :=
+  s!"ext={fmtList ext} rk={r}/{d} req={req} str={fmtList str} off={fmtList offs} size={size} md={md} mda={mda}"
+
+/-- layout_left / layout_right on the model -/
+def modelMap (l : Lay) (t : IdxT) (pat : Pat) (vals : List Int) (all : Bool) : Except Err String := do
+  let e ← Ext.ofVals t pat (ctorVals pat vals all)
+  let rank := pat.length
+  let exts ← (List.range rank).mapM (e.extent t)
+  let req ← reqSpan l t e
+  let strs ← (List.range rank).mapM (stride l t e)
+  let idxs := Spec.indices (natsOf exts)
+  let offs ← idxs.mapM (fun i => mapIdx l t e (intsOf i))
+  let buf := List.range req.toNat
+  let md ← idxs.mapM (fun i => mdspanAt l t e buf (intsOf i))
+  let mda ← idxs.mapM (fun i => mdarrayAt l t e (intsOf i))
+  let size ← e.fwdProd t rank
+  pure (fmtFields exts rank (rankDynamic pat) (toString req) strs offs (toString (t.toUnsigned.wrap size))
+    (okIf (intsOf md == offs)) (okIf (mda.all (fun p => p.1 == sz req) && intsOf (mda.map (·.2)) == offs)))
+
+def specMap (l : Lay) (pat : Pat) (vals : List Nat) : String :=
+  let rank := vals.length
+  let strs := (List.range rank).map (fun k => match l with | .left => Spec.strideLeft vals k | .right => Spec.strideRight vals k)
+  let offs := (Spec.indices vals).map (fun i => match l with | .left => Spec.offLeft vals i | .right => Spec.offRight vals i)
+  fmtFields (intsOf vals) rank (rankDynamic pat) (toString (Spec.prod vals)) (intsOf strs) (intsOf offs)
+    (toString (Spec.prod vals)) "ok" "ok"
+
+/-- layout_stride on the model (required_span_size is declared but not defined: not printed here) -/
+def modelStride (t : IdxT) (pat : Pat) (vals str : List Int) (all : Bool) (bufLen : Nat) : Except Err String := do
+  let e ← Ext.ofVals t pat (ctorVals pat vals all)
+  let rank := pat.length
+  let exts ← (List.range rank).mapM (e.extent t)
+  let m ← StrideMap.mk' t e str
+  let strs ← (List.range rank).mapM m.stride
+  let idxs := Spec.indices (natsOf exts)
+  let offs ← idxs.mapM (fun i => m.mapIdx t (intsOf i))
+  let buf := List.range bufLen
+  let md ← idxs.mapM (fun i => mdspanAtStride t m buf (intsOf i))
+  let size ← e.fwdProd t rank
+  pure (fmtFields exts rank (rankDynamic pat) "-" strs offs (toString (t.toUnsigned.wrap size)) (okIf (intsOf md == offs)) "-")
+
+def specStride (pat : Pat) (vals str : List Nat) : String :=
+  let offs := (Spec.indices vals).map (fun i => Spec.offStride str i)
+  fmtFields (intsOf vals) vals.length (rankDynamic pat) "-" (intsOf str) (intsOf offs) (toString (Spec.prod vals)) "ok" "-"
+
+/-- layout_transpose: `pat`/`vals` describe the extents of the transposed view -/
+def modelT (l : Lay) (t : IdxT) (pat : Pat) (vals : List Int) (all : Bool) : Except Err String := do
+  let tp ← transposePat pat
+  let tvals := vals.reverse
+  let ne ← Ext.ofVals t tp (ctorVals tp tvals all)
+  let m ← TMap.make t l ne
+  let e := m.extents
+  let exts ← (List.range 2).mapM (e.extent t)
+  let req ← m.reqSpan t
+  let strs ← (List.range 2).mapM (m.stride t)
+  let idxs := Spec.indices (natsOf exts)
+  let offs ← idxs.mapM (fun i => match i with
+    | [a, b] => m.mapIdx t a b
+    | _ => .error (.pre "arity"))
+  let buf := List.range req.toNat
+  let md ← offs.mapM (fun o => if sz o < 0 then .error .oob else rd buf (sz o).toNat)
+  let size ← e.fwdProd t 2
+  pure (fmtFields exts 2 (rankDynamic pat) (toString req) strs offs (toString (t.toUnsigned.wrap size)) (okIf (intsOf md == offs)) "-")
+
+def specT (l : Lay) (pat : Pat) (vals : List Nat) : String :=
+  -- the transposed view of a row-major matrix is the column-major view of the same extents, and vice versa
+  let vl : Lay := match l with | .left => .right | .right => .left
+  let strs := (List.range 2).map (fun k => match vl with | .left => Spec.strideLeft vals k | .right => Spec.strideRight vals k)
+  let offs := (Spec.indices vals).map (fun i => match vl with | .left => Spec.offLeft vals i | .right => Spec.offRight vals i)
+  fmtFields (intsOf vals) 2 (rankDynamic pat) (toString (Spec.prod vals)) (intsOf strs) (intsOf offs) (toString (Spec.prod vals)) "ok" "-"
+
+def fmtSpan (base : List Int) (s : Span) : Except Err String := do
+  let el ← s.elems base
+  let e : Int := match s.ext with | some n => n | none => -1
+  pure s!"off={s.off} size={s.size} ext={e} el={fmtList el}"
+
+def step (_ : Unit) (l : Line) : Unit × String :=
+  let bad := ((), "bad-op\tbad-op")
+  let out (m s : String) := ((), m ++ "\t" ++ s)
+  match l.op with
+  | "map" =>
+    match l.str? "lay", (l.str? "it").bind parseIt, l.list? "pat", l.natList? "ext", l.str? "ctor" with
+    | some lay, some t, some p, some vals, some ctor =>
+      let pat := parsePat p
+      let all := ctor == "all"
+      if pat.length ≠ vals.length then bad else
+      match lay with
+      | "left" => out (fmtE (modelMap .left t pat (intsOf vals) all)) (specMap .left pat vals)
+      | "right" => out (fmtE (modelMap .right t pat (intsOf vals) all)) (specMap .right pat vals)
+      | "tleft" => if vals.length ≠ 2 then bad else out (fmtE (modelT .left t pat (intsOf vals) all)) (specT .left pat vals)
+      | "tright" => if vals.length ≠ 2 then bad else out (fmtE (modelT .right t pat (intsOf vals) all)) (specT .right pat vals)
+      | "stride" =>
+        match l.natList? "str", l.natList? "perm" with
+        | some str, some perm =>
+          if !Spec.StrideOK vals str perm then out "pre(strides)" "pre(strides)" else
+          out (fmtE (modelStride t pat (intsOf vals) (intsOf str) all (Spec.reqSpanStride vals str))) (specStride pat vals str)
+        | _, _ => bad
+      | _ => bad
+    | _, _, _, _, _ => bad
+  | "ext" =>
+    match (l.str? "it").bind parseIt, l.list? "pat", l.natList? "ext", l.str? "ctor" with
+    | some t, some p, some vals, some ctor =>
+      let pat := parsePat p
+      if pat.length ≠ vals.length then bad else
+      let rank := pat.length
+      let m : Except Err String := do
+        let e ← Ext.ofVals t pat (ctorVals pat (intsOf vals) (ctor == "all"))
+        let exts ← (List.range rank).mapM (e.extent t)
+        let fwd ← (List.range (rank + 1)).mapM (e.fwdProd t)
+        let rev ← (List.range rank).mapM (e.revProd t)
+        pure s!"ext={fmtList exts} rk={rank}/{rankDynamic pat} se={fmtList p} fwd={fmtList fwd} rev={fmtList rev}"
+      let sfwd := (List.range (rank + 1)).map (Spec.strideLeft vals)
+      let srev := (List.range rank).map (Spec.strideRight vals)
+      out (fmtE m) s!"ext={fmtNatList vals} rk={rank}/{rankDynamic pat} se={fmtList p} fwd={fmtNatList sfwd} rev={fmtNatList srev}"
+    | _, _, _, _ => bad
+  | "conv" =>
+    match (l.str? "it").bind parseIt, (l.str? "sit").bind parseIt, l.list? "pat", l.list? "spat", l.natList? "ext" with
+    | some t, some ts, some p, some sp, some vals =>
+      let pat := parsePat p
+      let spat := parsePat sp
+      let m : Except Err String := do
+        let src ← Ext.ofVals ts spat (intsOf vals)
+        let dst ← Ext.conv t ts pat src
+        let exts ← (List.range pat.length).mapM (dst.extent t)
+        let sexts ← (List.range pat.length).mapM (src.extent ts)
+        pure s!"ext={fmtList exts} rk={pat.length}/{rankDynamic pat} eq={fmtBool (exts == sexts)}"
+      out (fmtE m) s!"ext={fmtNatList vals} rk={pat.length}/{rankDynamic pat} eq=1"
+    | _, _, _, _, _ => bad
+  | "stride_members" =>
+    match l.natList? "ext", l.natList? "str" with
+    | some vals, some str =>
+      -- declared, never defined: nothing to model; the spec says what they must return
+      out "req=undefined exh=undefined"
+        s!"req={Spec.reqSpanStride vals str} exh={fmtBool (Spec.isExhaustiveStride vals str)}"
+    | _, _ => bad
+  | "span" =>
+    match l.nat? "n", l.int? "se", l.str? "op", l.nat? "ct", l.nat? "off", l.int? "cnt" with
+    | some n, some se, some op, some ct, some off, some cnt =>
+      let base : List Int := (List.range n).map (fun k => (10 + k : Nat))
+      let ext : Option Nat := if se < 0 then none else some se.toNat
+      let s0 := Span.make 0 n ext
+      let cntO : Option Nat := if cnt < 0 then none else some cnt.toNat
+      let c := cnt.toNat
+      let m : Except Err Span :=
+        match op, ct with
+        | "first", 1 => s0.firstT c
+        | "first", _ => s0.first c
+        | "last", 1 => s0.lastT c
+        | "last", _ => s0.last c
+        | "subspan", 1 => s0.subspanT off cntO
+        | "subspan", _ => s0.subspan off cntO
+        | _, _ => .error (.pre "op")
+      -- spec: the elements are (base.drop o).take k, at offset o, with the standard's static extent
+      let (o, k) : Nat × Nat :=
+        match op with
+        | "first" => (0, c)
+        | "last" => (n - c, c)
+        | _ => (off, match cntO with | some x => x | none => n - off)
+      let sext : Int :=
+        if ct == 0 then -1
+        else match op with
+          | "subspan" => (match cntO with
+              | some x => (x : Int)
+              | none => if se < 0 then -1 else se - off)
+          | _ => c
+      out (fmtE (m >>= fmtSpan base)) s!"off={o} size={k} ext={sext} el={fmtList (Spec.subspan base o k)}"
+    | _, _, _, _, _, _ => bad
+  | _ => bad
+
+end Tetl.C19.Driver
+
+def main : IO Unit := Tetl.Proto.runDriver () Tetl.C19.Driver.step
